@@ -59,6 +59,19 @@ fn apply(node: &mut Node, i: usize, op: &Op) {
             node.log.push(L::Feed(i, *x, o));
             node.count += 1;
         }
+        Op::Gen { g, skip, len, fault, every, .. } => {
+            // a long uptime: only the last 64 outputs are logged (the replay regenerates the stream)
+            let total = *len;
+            let mut j = 0u64;
+            world::expand_gen(g, *skip, *len, *fault, *every, 0, |x, _f, _| {
+                let (o, _) = on(Side::Subject, || node.sut.feed(node.spec.mode, x));
+                node.log.push(L::Feed(i, *x, o));
+                node.count += 1;
+                j += 1;
+                let _ = total;
+                true
+            });
+        }
         Op::Reset { .. } => {
             on(Side::Subject, || node.sut.reset());
             node.log.push(L::Reset);
@@ -447,9 +460,15 @@ pub fn generate(rng: &mut Rng, tier: Tier, workers: usize) -> Scenario {
         worlds.push(if rng.chance(0.3) { shared.clone() } else { World::random(rng) });
     }
     let plan = if rng.chance(0.2) { FaultPlan::none() } else { FaultPlan::swarm(rng, &ALL_FEED_FAULTS, 0.005, 0.3) };
+    let mut ops = vec![];
+    // rarely: one instance has a very long life before the others are created / cloned from it
+    if rng.chance(0.001) && base.params.sum_periods(base.kind) <= 64 {
+        let fault = if rng.chance(0.4) { Some(*rng.pick(&world::VALUE_FAULTS)) } else { None };
+        ops.push(Op::Gen { n: 0, g: World::random_desc(rng), skip: 0, len: rng.range(66_000, 80_000) as u64, fault, every: if fault.is_some() { rng.range(2, 3000) as u64 } else { 0 }, reset_every: 0 });
+    }
+    let n_ops = n_ops + ops.len();
     let mut live: Vec<usize> = (0..k0).collect();
     let mut next_id = k0;
-    let mut ops = vec![];
     let mut buf = vec![];
     let mut last: Option<(Input, Fault)> = None;
     while ops.len() < n_ops {
